@@ -363,7 +363,12 @@ class CallMixin(object):
             self._gen_cache[gk] = any(isinstance(n, (ast.Yield, ast.YieldFrom, ast.Await))
                                       for n in ast.walk(fi.node))
         if self._gen_cache[gk]:
-            raise AnalysisError("generator/coroutine %s not modelled" % fi.qualname)
+            # generator functions are not inlined: their result is an opaque
+            # iterable derived from the arguments
+            self.ev(state, "ext", frame, node, name=fi.qualname, args=tuple(args),
+                    kwargs=tuple(sorted(kwargs.items())), internal=True, generator=True)
+            return [(state, ("call", fi.qualname, tuple(args),
+                             tuple(sorted(kwargs.items()))))]
         nf = Frame(fi, self_term, frame.depth + 1, cells=cells)
         env = {}
         params = list(fi.params)
